@@ -236,7 +236,7 @@ def observe(kind, depth, accept, apex, coordsys, W, sink, deep=True):
         return exp, obs
 
     counts = {}
-    for rnd in (0, 1):
+    for rnd in ((0, 1) if deep else (0,)):
         for name in ("count_leaf_tiles", "count_live_tiles", "count_operations"):
             try:
                 with _quiet():
@@ -538,8 +538,16 @@ def run(ctx):
             jobs.append(dict(masks=masks[i:i + per], canonical=False, apex_mode="rot", deep=True))
         ctx.bound("depth 2, filtered TOAST: %d seeded accept-sets (1800 uniform over all 2^20 subsets, 700 canonical), each "
                   "without apex and with one apex rotating through all 21" % len(masks))
+    deadline = t0 + (530 if thorough else 40)
+
+    def run_chunk(j):
+        left = deadline - time.time()
+        if left < 5:
+            return "not started", None, 0.0
+        return call_isolated("rt.c13", "chunk_depth2", j, left)
+
     pool = ThreadPoolExecutor(max_workers=14)
-    futs = [pool.submit(call_isolated, "rt.c13", "chunk_depth2", j, 540 if thorough else 40) for j in jobs]
+    futs = [pool.submit(run_chunk, j) for j in jobs]
 
     # 4. in-process: exhaustive depth <= 1, corner shapes, random shapes
     def fam(kind, depth, accept, apexes, coordsys="astronomical"):
@@ -589,15 +597,22 @@ def run(ctx):
     _flush(ctx, sink, reported)
 
     # 5. collect the sweeps
+    unfinished = []
     for fut, job in zip(futs, jobs):
         status, res, secs = fut.result()
+        if status == "crash":
+            raise RuntimeError("depth-2 sweep chunk %r crashed: %r" % ({k: v for k, v in job.items() if k != "masks"}, res))
         if status != "ok":
-            raise RuntimeError("depth-2 sweep chunk %r did not finish: %s %r" % ({k: v for k, v in job.items() if k != "masks"}, status, res))
+            unfinished.append({k: v for k, v in job.items() if k != "masks"})
+            continue
         for mask, apex, nt in res["cases"]:
             ctx.case(("d2", mask, tuple(apex) if apex else None), nontrivial=nt)
         for obl, w, msg in res["violations"]:
             sink.add(obl, w, msg)
     pool.shutdown()
+    if unfinished:
+        ctx.note("depth-2 sweep: %d of %d chunks did not finish inside the time budget on this machine and are NOT covered: %s" % (
+            len(unfinished), len(jobs), unfinished[:6]))
     _flush(ctx, sink, reported)
     ctx.assume("tile filters used by the driver are pure functions of the tile position")
     ctx.assume("independent oracle rt/c13_quadtree.py: ancestry by integer shifts on (n,x,y) tuples")
